@@ -64,10 +64,27 @@ TLC_STATS = re.compile(r"(\d+) states generated, (\d+) distinct states found")
 TLC_DEPTH = re.compile(r"The depth of the complete state graph search is (\d+)")
 
 
+def sync_specs(mcdir):
+    """Copy spec/*.tla next to the generated model, atomically and only when the content differs:
+    several TLC runs (threads of one check, or several checks at once) share the directory, and a
+    plain copy could be read half-written by a TLC that is parsing at that moment."""
+    for f in glob.glob(os.path.join(SPEC, "*.tla")):
+        dst = os.path.join(mcdir, os.path.basename(f))
+        data = open(f, "rb").read()
+        try:
+            if open(dst, "rb").read() == data:
+                continue
+        except OSError:
+            pass
+        tmp = "%s.%d.%d.tmp" % (dst, os.getpid(), int(time.time() * 1e6) % 1000000)
+        with open(tmp, "wb") as fh:
+            fh.write(data)
+        os.replace(tmp, dst)
+
+
 def run_tlc(mcdir, mc, workers=8, timeout=900, simulate=None, extra=None):
     """Run TLC on MC module `mc` in `mcdir`; returns dict with stats, replay payloads, invariant violations."""
-    for f in glob.glob(os.path.join(SPEC, "*.tla")):
-        shutil.copy(f, mcdir)
+    sync_specs(mcdir)
     meta = os.path.join(WORK, "tlcmeta", mc)
     shutil.rmtree(meta, ignore_errors=True)
     os.makedirs(meta, exist_ok=True)
